@@ -646,7 +646,7 @@ def values_equal(a, b, tol):
     return True
 
 
-RE_OUT = re.compile(r"^C (-?\d+)(?: W (\d+) R (\d+)/(\d+) V((?: \S+)*?)(?: P (\S+) C2 (-?\d+)(?: W2 (\d+) R2 (\d+)/(\d+) V2((?: \S+)*?) E (\d))?)?)?$")
+RE_OUT = re.compile(r"^C (-?\d+)(?: W (\d+) R (\d+)/(\d+) V((?: \S+)*?)(?: P (\S+) C2 (-?\d+)(?: W2 (\d+) R2 (\d+)/(\d+) V2((?: \S+)*))?)?)?$")
 
 
 def parse_out(out):
@@ -661,7 +661,7 @@ def parse_out(out):
     if g[5] is not None:
         d.update(text2=g[5], count2=int(g[6]))
     if g[7] is not None:
-        d.update(written2=int(g[7]), rd2=int(g[8]), len2=int(g[9]), cells2=g[10].split(), eq=int(g[11]))
+        d.update(written2=int(g[7]), rd2=int(g[8]), len2=int(g[9]), cells2=g[10].split())
     return d
 
 
